@@ -787,6 +787,35 @@ def _inject(rng, items, label):
         f["name"] = "brand_new"
         items.append(ext_of(t, fields=[f]))
         items.append(ext_of(t, fields=[copy.deepcopy(f)]))
+    elif label.startswith("ext-new-"):
+        # a member that the base definition does NOT have, repeated among the extension-added members:
+        # in two separate `extend` blocks ("-twice") or twice within one block ("-one-block")
+        what = label[len("ext-new-"):].rsplit("-", 2 if label.endswith("one-block") else 1)[0]
+        one_block = label.endswith("one-block")
+        new_field = {"name": "brand_new", "desc": None, "args": [], "type": {"k": "named", "n": "Int"}, "dirs": []}
+        if what == "field":
+            t, key, m = pick(("object", "interface")), "fields", new_field
+        elif what == "value":
+            t, key, m = pick(("enum",)), "values", {"name": "BRAND_NEW", "desc": None, "dirs": []}
+        elif what == "input-field":
+            t, key, m = pick(("input",)), "input_fields", {"name": "brand_new", "desc": None, "type": {"k": "named", "n": "Int"},
+                                                           "default": None, "dirs": []}
+        elif what == "member":
+            t, key, m = pick(("union",)), "members", "BrandNewObj"
+            items.append({"k": "type", "kind": "object", "name": "BrandNewObj", "desc": None, "interfaces": [], "fields": [copy.deepcopy(new_field)],
+                          "members": [], "values": [], "input_fields": [], "dirs": []})
+        elif what == "interface":
+            t, key, m = pick(("object",)), "interfaces", "BrandNewIf"
+            items.append({"k": "type", "kind": "interface", "name": "BrandNewIf", "desc": None, "interfaces": [], "members": [], "values": [],
+                          "input_fields": [], "dirs": [], "fields": [dict(copy.deepcopy(new_field), name="brand_new_if")]})
+            items.append(ext_of(t, fields=[dict(copy.deepcopy(new_field), name="brand_new_if")]))
+        else:
+            raise KeyError(label)
+        if one_block:
+            items.append(ext_of(t, **{key: [copy.deepcopy(m), copy.deepcopy(m)]}))
+        else:
+            items.append(ext_of(t, **{key: [copy.deepcopy(m)]}))
+            items.append(ext_of(t, **{key: [copy.deepcopy(m)]}))
     elif label == "ext-dup-input-field":
         t = pick(("input",), "input_fields")
         items.append(ext_of(t, input_fields=[copy.deepcopy(t["input_fields"][0])]))
@@ -895,4 +924,7 @@ INVALID_LABELS = [
     "ext-redefines-operation", "missing-query", "bad-default", "null-default-nonnull", "bad-deprecated-arg",
     "reserved-enum-value", "self-union", "self-interface", "output-type-as-argument", "ext-output-type-as-argument",
     "input-type-as-field-type", "empty-object", "specified-directive-redefined", "ext-unknown-target",
+    "ext-new-field-twice", "ext-new-field-one-block", "ext-new-value-twice", "ext-new-value-one-block",
+    "ext-new-input-field-twice", "ext-new-input-field-one-block", "ext-new-member-twice", "ext-new-member-one-block",
+    "ext-new-interface-twice", "ext-new-interface-one-block",
 ]
